@@ -37,6 +37,7 @@ def run(ctx, canary=False):
             p.update(targets=[], split_strategy=None, threshold=5.0)
         scs.append({"mech": name, "params": p, "attrs": ["a", "b", "c"], "sizes": [2, 3, 2],
                     "records": [[0, rng.randrange(3), rng.randrange(2)] for _ in range(6)], "seed": rng.randrange(10 ** 6)})
+    scs += MC.threshold_ladders(rng)
     jobs, results = MC.run_all(scs, None if thorough else 5, rng)
     traces = []
     for (sc, nb), res in zip(jobs, results):
